@@ -156,6 +156,7 @@ type Record struct {
 	Sub     string       `json:"sub,omitempty"`
 	Applied []AppliedRec `json:"applied,omitempty"`
 	Add     []MsgRec     `json:"add,omitempty"`
+	SD      *DiskProj    `json:"sd,omitempty"` // the sender's durable state at the moment its messages left (send sub-step; no log)
 	Del     []int        `json:"del,omitempty"`
 	Nodes   []NodeState  `json:"nodes,omitempty"`
 }
@@ -174,9 +175,9 @@ func projEnt(e pb.Entry) EntProj {
 		}
 	case len(e.Data) == 0:
 		p.K = "E"
-	case len(e.Data) == 8:
+	case len(e.Data) >= 8:
 		p.K = "N"
-		p.P = binary.BigEndian.Uint64(e.Data)
+		p.P = binary.BigEndian.Uint64(e.Data[:8])
 	default:
 		p.K = "N?"
 	}
@@ -365,4 +366,36 @@ func newStorage(opt Options, id uint64) (raft.IExtRaftStorage, func(), error) {
 		return st, func() { st.Close(); os.RemoveAll(dir) }, nil
 	}
 	return nil, nil, fmt.Errorf("unknown storage %q", opt.Storage)
+}
+
+// reopenStorage: what survives a crash is the key-value engine plus the hard state and snapshot
+// meta (in production: WAL and snapshot files). For RocksStorage a FRESH storage object is built
+// over the same engine, as a process restart does (node/raft.go replayWAL: ApplySnapshot,
+// SetHardState), so that nothing cached in the old object leaks across the crash.
+func reopenStorage(nd *nodeRT) error {
+	old, ok := nd.st.(*raft.RocksStorage)
+	if !ok {
+		return nil
+	}
+	hs, _, err := old.InitialState()
+	if err != nil {
+		return err
+	}
+	snap, err := old.Snapshot()
+	if err != nil {
+		return err
+	}
+	st := raft.NewRocksStorage(nd.id, groupID, false, old.Eng())
+	if !raft.IsEmptySnap(snap) {
+		if err := st.ApplySnapshot(snap); err != nil {
+			return err
+		}
+	}
+	if err := st.SetHardState(hs); err != nil {
+		return err
+	}
+	nd.st = st
+	dir := old.Eng().GetDataDir()
+	nd.closeSt = func() { st.Close(); os.RemoveAll(filepath.Dir(dir)) }
+	return nil
 }
